@@ -302,7 +302,7 @@ pub fn run(ctx: &Ctx, out: &mut Out) {
         ("port", vec![0, 1, 255, 256, 300, 8686, 65535, 65536, 70000, 131072 + 8686, -1, -300]),
         ("batch_size", vec![0, 1, 2, 32, 63, 64, 65, 255, 256, 257, 300, 320, 65535, 65536, 70000, -1, -300]),
         ("fault_percentage", vec![-1, -300, 0, 1, 10, 50, 51, 100, 255, 256, 266, 300, 306, 65536, 70000]),
-        ("num_workers", vec![0, 1, 2, 3, 8, 16, -1, -300]),
+        ("num_workers", vec![0, 1, 2, 3, 8, 16, 64, 255, 256, 257, 300, 1000, -1, -300]),
         ("status_interval", vec![1, 10, 255, 256, 300, 600, 65535]),
         ("health_check_port", vec![1024, 8000, 65535, 255, 256]),
     ];
@@ -673,7 +673,20 @@ fn effective_on_running_server(ctx: &Ctx, out: &mut Out, rng: &mut Rng, seed: &[
                 out.inconclusive("fault-rate spot check: too few replies");
             }
         } else if key.starts_with("num_workers") {
-            let names: std::collections::HashSet<String> = sp.thread_names().into_iter().filter(|n| n.starts_with("worker-")).collect();
+            // the main thread may still be spawning workers when the first of them already answers:
+            // the count is taken once it has been stable at the written number, or after 3 s
+            let count = |sp: &ServerProc| sp.thread_names().into_iter().filter(|n| n.starts_with("worker-")).collect::<std::collections::HashSet<String>>();
+            let t0 = std::time::Instant::now();
+            let mut names = count(&sp);
+            while names.len() < *v as usize && t0.elapsed() < Duration::from_secs(3) {
+                std::thread::sleep(Duration::from_millis(50));
+                names = count(&sp);
+            }
+            if names.len() == *v as usize {
+                // (and it does not grow beyond it either)
+                std::thread::sleep(Duration::from_millis(150));
+                names = count(&sp);
+            }
             if names.len() != *v as usize {
                 out.violation(
                     &format!("C16 {} num_workers {}->{} on-running-server", if via_env { "env" } else { "file" }, v, names.len()),
